@@ -137,7 +137,7 @@ impl Property for C07 {
         40_000
     }
     fn random_cases(&self, tier: Tier) -> u64 {
-        tier.pick(15_000, 200_000)
+        tier.pick(100_000, 500_000)
     }
     fn run(&self, t: &mut Tape, ctx: &mut CaseCtx) -> Verdict {
         let (prog, _info) = crate::props::c01::gen_case(t, 18, true, true);
